@@ -101,7 +101,7 @@ def rewrite_hash_imports(path):
 
 # files whose straight-line `async fn`s are lowered to plain functions (see deasync)
 DEASYNC = ["consensus/src/core.rs", "consensus/src/synchronizer.rs", "consensus/src/messages.rs", "consensus/src/mempool.rs",
-           "mempool/src/batch_maker.rs"]
+           "mempool/src/batch_maker.rs", "consensus/src/helper.rs", "mempool/src/helper.rs"]
 ASYNC_FN_RE = re.compile(r"\basync fn\s+(\w+)")
 
 
